@@ -7,8 +7,7 @@ every translate of a listed logical line on as many qubits as with the line itse
 consecutive translates differ by the product of the row / column of vertex (Z lines) or face
 (X lines) generators between them, the qubits across being counted twice (cyclically shifted).
 -/
-import PanqecVerif.Proofs.DistLadder
-import PanqecVerif.Proofs.DistLattice
+import PanqecVerif.Proofs.DistLines
 import PanqecVerif.Proofs.LatToric2DCodeD
 
 namespace Panqec.Toric2DCode
@@ -68,9 +67,6 @@ theorem ladder_coords1 (M L : Nat) (F : Int → Int → Nat)
 
 /-! ### one generator -/
 
-/-- 0/1 indicator: the letter `P` anticommutes with the letter of `b` on `q` -/
-def ind (P : Pauli) (b : Op) (q : Coord) : Nat := if opHit P b q = true then 1 else 0
-
 /-- `b` commutes with every stabilizer generator of the lattice -/
 def CommStabs (Lx Ly : Nat) (b : Op) : Prop :=
   ∀ s ∈ (lattice Lx Ly).stabs, opAntiCount ((lattice Lx Ly).getStab s) b % 2 = 0
@@ -87,14 +83,7 @@ theorem stab_even {Lx Ly : Nat} (hx : 2 ≤ Lx) (hy : 2 ≤ Ly) {b : Op} (hb : C
   unfold ind
   omega
 
-/-! ### key lists of the translates -/
-
-/-- the vertical line at `x = u`, positions `y = 2j + p` -/
-def colKeys (u : Int) (p L : Nat) : List Coord :=
-  (List.range L).map (fun j => [u, ((2 * j + p : Nat) : Int)])
-/-- the horizontal line at `y = u`, positions `x = 2j + p` -/
-def rowKeys (u : Int) (p L : Nat) : List Coord :=
-  (List.range L).map (fun j => [((2 * j + p : Nat) : Int), u])
+/-! ### the listed lines -/
 
 theorem kZ0_eq (Ly : Nat) : kZ0 Ly = colKeys 1 0 Ly := by
   unfold kZ0 colKeys; rw [pyRange2_eq 0 Ly (by omega), List.map_map]; rfl
@@ -104,47 +93,6 @@ theorem kZ1_eq (Lx : Nat) : kZ1 Lx = rowKeys 1 0 Lx := by
   unfold kZ1 rowKeys; rw [pyRange2_eq 0 Lx (by omega), List.map_map]; rfl
 theorem kX0_eq (Lx : Nat) : kX0 Lx = rowKeys 0 1 Lx := by
   unfold kX0 rowKeys; rw [pyRange2_eq 1 Lx (by omega), List.map_map]; rfl
-
-theorem mem_colKeys {u : Int} {p L : Nat} {q : Coord} :
-    q ∈ colKeys u p L ↔ ∃ j, j < L ∧ q = [u, ((2 * j + p : Nat) : Int)] := by
-  unfold colKeys
-  simp only [List.mem_map, List.mem_range]
-  constructor
-  · rintro ⟨j, hj, rfl⟩; exact ⟨j, hj, rfl⟩
-  · rintro ⟨j, hj, rfl⟩; exact ⟨j, hj, rfl⟩
-theorem mem_rowKeys {u : Int} {p L : Nat} {q : Coord} :
-    q ∈ rowKeys u p L ↔ ∃ j, j < L ∧ q = [((2 * j + p : Nat) : Int), u] := by
-  unfold rowKeys
-  simp only [List.mem_map, List.mem_range]
-  constructor
-  · rintro ⟨j, hj, rfl⟩; exact ⟨j, hj, rfl⟩
-  · rintro ⟨j, hj, rfl⟩; exact ⟨j, hj, rfl⟩
-
-theorem nodup_colKeys (u : Int) (p L : Nat) : (colKeys u p L).Nodup := by
-  unfold colKeys
-  show List.Pairwise _ _
-  rw [List.pairwise_map]
-  refine List.Pairwise.imp ?_ List.nodup_range
-  intro a b hab h
-  simp only [List.cons.injEq, and_true, true_and] at h
-  exact hab (by omega)
-theorem nodup_rowKeys (u : Int) (p L : Nat) : (rowKeys u p L).Nodup := by
-  unfold rowKeys
-  show List.Pairwise _ _
-  rw [List.pairwise_map]
-  refine List.Pairwise.imp ?_ List.nodup_range
-  intro a b hab h
-  simp only [List.cons.injEq, and_true] at h
-  exact hab (by omega)
-
-theorem countP_colKeys (P : Pauli) (b : Op) (u : Int) (p L : Nat) :
-    (colKeys u p L).countP (opHit P b) =
-      rsum L (fun j => ind P b [u, ((2 * j + p : Nat) : Int)]) :=
-  countP_range_map _ _ L
-theorem countP_rowKeys (P : Pauli) (b : Op) (u : Int) (p L : Nat) :
-    (rowKeys u p L).countP (opHit P b) =
-      rsum L (fun j => ind P b [((2 * j + p : Nat) : Int), u]) :=
-  countP_range_map _ _ L
 
 /-! ### the four parity statements -/
 
